@@ -262,6 +262,22 @@ class _mark_ignore_name(ast.NodeTransformer):
         return new_node
 
 
+def _assigned_names(body: ast.AST) -> List[str]:
+    "Names a lambda body binds with `:=` (nested lambdas have their own)."
+    found: List[str] = []
+
+    def scan(n: ast.AST):
+        if isinstance(n, ast.Lambda):
+            return
+        if isinstance(n, ast.NamedExpr) and isinstance(n.target, ast.Name):
+            found.append(n.target.id)
+        for c in ast.iter_child_nodes(n):
+            scan(c)
+
+    scan(body)
+    return found
+
+
 class _rewrite_captured_vars(ast.NodeTransformer):
     def __init__(self, cv: inspect.ClosureVars, expanding: Tuple[Callable, ...] = ()):
         # A name the function closes over refers to the enclosing scope, even if the module
@@ -347,10 +363,21 @@ class _rewrite_captured_vars(ast.NodeTransformer):
         return node
 
     def visit_Lambda(self, node: ast.Lambda) -> Any:
-        self._ignore_stack.append([a.arg for a in node.args.args])
-        v = super().generic_visit(node)
+        # Default values are evaluated where the lambda is written: its parameters do not
+        # hide anything there.
+        a = node.args
+        a.defaults = [self.visit(d) for d in a.defaults]
+        a.kw_defaults = [self.visit(d) if d is not None else None for d in a.kw_defaults]
+
+        # Every kind of parameter, and every name the body assigns with `:=`, is local.
+        bound = [p.arg for p in a.posonlyargs + a.args + a.kwonlyargs]
+        bound += [p.arg for p in (a.vararg, a.kwarg) if p is not None]
+        bound += _assigned_names(node.body)
+
+        self._ignore_stack.append(bound)
+        node.body = self.visit(node.body)
         self._ignore_stack.pop()
-        return v
+        return node
 
     def _visit_comprehension(self, node: Any) -> Any:
         """The loop variables of a comprehension hide captured variables of the same name
